@@ -244,6 +244,15 @@ impl<C: SymBridge> Lab<C> for SymLab<C> {
             ok
         })
     }
+    fn cmp_scalars(&mut self, a: Scalar<C>, b: Scalar<C>) -> core::cmp::Ordering {
+        match (C::s_out(a).const_val(), C::s_out(b).const_val()) {
+            (Some(x), Some(y)) => x.cmp(&y),
+            _ => {
+                symcore::with(|c| c.fail("cmp_scalars", "numeric comparison of symbolic scalars is outside the engine".into(), true));
+                core::cmp::Ordering::Equal
+            }
+        }
+    }
     fn note(&mut self, s: &str) {
         self.notes.push(s.to_string());
     }
